@@ -29,7 +29,7 @@ theorem fshock_window (id event sessionStart trigger length target : Nat) (t m :
     simp only [Pams.C13.timeOK, fshockHook, List.contains_iff_mem, List.mem_map, List.mem_range,
       decide_eq_true_eq]
     constructor
-    · rintro ⟨i, hi, rfl⟩; omega
+    · rintro ⟨i, hi, he⟩; omega
     · intro h; exact ⟨t - (sessionStart + trigger), by omega, by omega⟩
   have h3 : filterOK (fshockHook id event sessionStart trigger length target) (some (m, isIndex)) =
       decide (target = m) := by
